@@ -16,10 +16,12 @@ import subprocess
 import sys
 import time
 
-WT = "/tmp/wt_mut"
-SIMCOPY = "/tmp/sim_mut"
-TGT = "/tmp/tgt_mut"
-VDIR = "/tmp/vf_mut"
+# MUTQ_SUFFIX selects a second set of scratch directories so that two queues can run side by side.
+SUF = os.environ.get("MUTQ_SUFFIX", "")
+WT = "/tmp/wt_mut" + SUF
+SIMCOPY = "/tmp/sim_mut" + SUF
+TGT = "/tmp/tgt_mut" + SUF
+VDIR = "/tmp/vf_mut" + SUF
 OUT = "/verif/sensitivity/results.jsonl"
 
 
